@@ -50,6 +50,7 @@ const ORDER_TARGETS: &[(u32, &str, &str)] = &[
 
 const CONST_TARGETS: &[(&str, &str)] = &[
     ("crates/ripd/src/continuities.rs", "EVENT_CHANNEL_CAPACITY"),
+    ("crates/ripd/src/continuity_seek_index.rs", "SEEK_INDEX_STRIDE_EVENTS_V1"),
     ("crates/ripd/src/runner.rs", "EVENT_CHANNEL_CAPACITY"),
     ("crates/ripd/src/tasks/mod.rs", "EVENT_CHANNEL_CAPACITY"),
     ("crates/ripd/src/tasks/mod.rs", "OUTPUT_EVENT_MAX_BYTES"),
@@ -1365,6 +1366,163 @@ fn main() {
         }
         lean.push_str("end Rip.Gen.AuthRecovery\n");
         write_if_changed(&out.join("AuthRecovery.lean"), &lean);
+    }
+
+    // seek-index use (C04): who reads an index entry's `.offset`, and in which order
+    // `best_offset_for_seq` looks an entry up, checks it against the sidecar and reads its offset
+    {
+        #[derive(Default)]
+        struct OffsetReaders {
+            cur_fn: Vec<String>,
+            found: BTreeMap<String, u32>,
+            best_tokens: Vec<u32>,
+        }
+        impl OffsetReaders {
+            fn in_best(&self) -> bool {
+                self.cur_fn.last().map(|f| f == "best_offset_for_seq").unwrap_or(false)
+            }
+        }
+        fn call_name(c: &syn::ExprCall) -> String {
+            if let syn::Expr::Path(p) = &*c.func {
+                p.path.segments.last().map(|s| s.ident.to_string()).unwrap_or_default()
+            } else {
+                String::new()
+            }
+        }
+        impl<'ast> Visit<'ast> for OffsetReaders {
+            fn visit_item_mod(&mut self, m: &'ast syn::ItemMod) {
+                if m.ident == "tests" || m.attrs.iter().any(|a| a.to_token_stream().to_string().replace(' ', "").contains("cfg(test)")) {
+                    return;
+                }
+                syn::visit::visit_item_mod(self, m);
+            }
+            fn visit_item_fn(&mut self, f: &'ast syn::ItemFn) {
+                self.cur_fn.push(f.sig.ident.to_string());
+                syn::visit::visit_item_fn(self, f);
+                self.cur_fn.pop();
+            }
+            fn visit_impl_item_fn(&mut self, f: &'ast syn::ImplItemFn) {
+                self.cur_fn.push(f.sig.ident.to_string());
+                syn::visit::visit_impl_item_fn(self, f);
+                self.cur_fn.pop();
+            }
+            fn visit_expr_try(&mut self, t: &'ast syn::ExprTry) {
+                if self.in_best() {
+                    if let syn::Expr::Call(c) = &*t.expr {
+                        if call_name(c) == "validate_seq_index_against_sidecar" {
+                            // the check, with its failure propagated
+                            self.best_tokens.push(2);
+                            for a in c.args.iter() {
+                                self.visit_expr(a);
+                            }
+                            return;
+                        }
+                    }
+                }
+                syn::visit::visit_expr_try(self, t);
+            }
+            fn visit_expr_call(&mut self, c: &'ast syn::ExprCall) {
+                if self.in_best() {
+                    match call_name(c).as_str() {
+                        "best_entry_for_seq" => self.best_tokens.push(1),
+                        "validate_seq_index_against_sidecar" => self.best_tokens.push(4), // result not propagated
+                        _ => {}
+                    }
+                }
+                syn::visit::visit_expr_call(self, c);
+            }
+            fn visit_expr_field(&mut self, e: &'ast syn::ExprField) {
+                if let syn::Member::Named(i) = &e.member {
+                    if i == "offset" {
+                        let name = self.cur_fn.last().cloned().unwrap_or_else(|| "<top>".into());
+                        *self.found.entry(name).or_insert(0) += 1;
+                        if self.in_best() {
+                            self.best_tokens.push(3);
+                        }
+                    }
+                }
+                syn::visit::visit_expr_field(self, e);
+            }
+        }
+        let mut r = OffsetReaders::default();
+        let mut seek_starts: Vec<(String, String)> = Vec::new();
+        for f in ["crates/ripd/src/continuity_seek_index.rs", "crates/ripd/src/continuity_stream_cache.rs"] {
+            match load(f, &mut parsed) {
+                Ok(()) => r.visit_file(&parsed[f]),
+                Err(e) => {
+                    eprintln!("ripx: {e}");
+                    std::process::exit(1);
+                }
+            }
+        }
+        // every `best_offset_for_seq(…)` call site and every other function that hands a byte offset
+        // of the full sidecar to `SeekFrom::Start`
+        {
+            struct Starts<'a> {
+                cur_fn: Vec<String>,
+                out: &'a mut Vec<(String, String)>,
+            }
+            impl<'ast, 'a> Visit<'ast> for Starts<'a> {
+                fn visit_item_mod(&mut self, m: &'ast syn::ItemMod) {
+                    if m.ident == "tests" {
+                        return;
+                    }
+                    syn::visit::visit_item_mod(self, m);
+                }
+                fn visit_impl_item_fn(&mut self, f: &'ast syn::ImplItemFn) {
+                    self.cur_fn.push(f.sig.ident.to_string());
+                    syn::visit::visit_impl_item_fn(self, f);
+                    self.cur_fn.pop();
+                }
+                fn visit_item_fn(&mut self, f: &'ast syn::ItemFn) {
+                    self.cur_fn.push(f.sig.ident.to_string());
+                    syn::visit::visit_item_fn(self, f);
+                    self.cur_fn.pop();
+                }
+                fn visit_expr_call(&mut self, c: &'ast syn::ExprCall) {
+                    if let syn::Expr::Path(p) = &*c.func {
+                        let segs: Vec<String> = p.path.segments.iter().map(|s| s.ident.to_string()).collect();
+                        if segs.ends_with(&["SeekFrom".to_string(), "Start".to_string()]) {
+                            if let Some(a) = c.args.first() {
+                                self.out.push((self.cur_fn.last().cloned().unwrap_or_default(), squash(a)));
+                            }
+                        }
+                    }
+                    syn::visit::visit_expr_call(self, c);
+                }
+            }
+            let mut st = Starts { cur_fn: Vec::new(), out: &mut seek_starts };
+            st.visit_file(&parsed["crates/ripd/src/continuity_stream_cache.rs"]);
+        }
+        if r.best_tokens.is_empty() {
+            eprintln!("ripx: continuity_seek_index.rs: best_offset_for_seq not found or empty");
+            std::process::exit(1);
+        }
+        let mut lean = String::new();
+        lean.push_str("/- GENERATED by ripx from ripd/src/{continuity_seek_index,continuity_stream_cache}.rs. Do not edit. -/\nnamespace Rip.Gen.SeekUse\n\n");
+        lean.push_str("/-- functions (outside test modules) that read a field `.offset`: (FNV-1a 64 of the function name, number of reads) -/\n");
+        lean.push_str("def offsetReaders : List (Nat × Nat) := [\n");
+        let items: Vec<String> = r.found.iter().map(|(n, c)| format!("  ({}, {c}) -- {n}", fnv64(n.as_bytes()))).collect();
+        for (i, it) in items.iter().enumerate() {
+            let (a, b) = it.split_once(" -- ").unwrap();
+            lean.push_str(&format!("{a}{} -- {b}\n", if i + 1 < items.len() { "," } else { "" }));
+        }
+        lean.push_str("]\n\n");
+        lean.push_str("/-- `best_offset_for_seq`, in source order: 1 = the entry is looked up (`best_entry_for_seq`), 2 = `validate_seq_index_against_sidecar(…)?` (checked, failure propagated), 4 = the same call without `?`, 3 = a read of `.offset` -/\n");
+        lean.push_str(&format!("def bestOffsetTokens : List Nat := [{}]\n\n", r.best_tokens.iter().map(|t| t.to_string()).collect::<Vec<_>>().join(", ")));
+        lean.push_str("/-- every `SeekFrom::Start(x)` in continuity_stream_cache.rs: (FNV-1a 64 of the function name, FNV-1a 64 of `x`) -/\n");
+        lean.push_str("def seekStarts : List (Nat × Nat) := [\n");
+        let items: Vec<String> = seek_starts.iter().map(|(f, a)| format!("  ({}, {}) -- {f}: {a}", fnv64(f.as_bytes()), fnv64(a.as_bytes()))).collect();
+        for (i, it) in items.iter().enumerate() {
+            let (a, b) = it.split_once(" -- ").unwrap();
+            lean.push_str(&format!("{a}{} -- {b}\n", if i + 1 < items.len() { "," } else { "" }));
+        }
+        lean.push_str("]\n\n");
+        for n in ["best_offset_for_seq", "validate_seq_index_against_sidecar", "load_seq_index_v1", "start_offset", "anchor_offset", "boundary_pos_for_seq_v1", "window_recent_messages_v1_from_cut_v1"] {
+            lean.push_str(&format!("def h_{n} : Nat := {}\n", fnv64(n.as_bytes())));
+        }
+        lean.push_str("\nend Rip.Gen.SeekUse\n");
+        write_if_changed(&out.join("SeekUse.lean"), &lean);
     }
 
     if let Some(p) = json_out {
